@@ -229,7 +229,7 @@ func genC16Plan(seed uint64, tier string) *C16Plan {
 		}
 		p.Ops = append([]C16Op{{Op: "exec", SQL: stmt, Kind: kind + "-block"}}, p.Ops...)
 	}
-	if !p.Global && g.Prob(0.15) {
+	if !p.Global && g.Prob(0.3) {
 		cl := simkit.Pick(g, []string{"commit", "commit", "update", "insert", "delete", "begin"})
 		p.Fault = &DBFault{Class: cl, Nth: g.Range(1, 2), Kind: "error", Num: simkit.Pick(g, []int{1213, 1205, 3101})}
 	} else if p.Driver == "at" && !p.Global && g.Prob(0.3) {
